@@ -28,8 +28,18 @@ type SerialStats struct {
 
 const PingInterval = 10 * time.Second
 
+// SerialOpt selects a workload profile. LongLived: three nodes, almost only clock advances and answered liveness
+// checks (one in 400 unanswered), so that single entries collect hundreds of checks.
+type SerialOpt struct {
+	LongLived bool
+}
+
 // RunSerial executes one seeded history against a fresh table.
 func RunSerial(rng *rand.Rand, nSteps int, obs Observer) (SerialStats, error) {
+	return RunSerialOpt(rng, nSteps, obs, SerialOpt{})
+}
+
+func RunSerialOpt(rng *rand.Rand, nSteps int, obs Observer, opt SerialOpt) (SerialStats, error) {
 	stats := SerialStats{Kinds: map[string]int{}}
 	d, err := New(rng.Int63(), PingInterval)
 	if err != nil {
@@ -37,6 +47,9 @@ func RunSerial(rng *rand.Rand, nSteps int, obs Observer) (SerialStats, error) {
 	}
 	defer d.Close()
 	pool := NewPool(d.Self.ID(), rng)
+	if opt.LongLived {
+		pool.IDs = pool.IDs[:3]
+	}
 	lastRec := map[enode.ID]Rec{}
 	victim := -1
 	victimLeft := 0
@@ -75,7 +88,7 @@ func RunSerial(rng *rand.Rand, nSteps int, obs Observer) (SerialStats, error) {
 		}
 		// directed schedule: while a liveness check of an entry is in flight, that entry is deleted and the
 		// same record added again, so that the answer arrives for an entry object that has been replaced
-		if swapStage == 0 && len(held) > 0 && rng.Intn(12) == 0 {
+		if !opt.LongLived && swapStage == 0 && len(held) > 0 && rng.Intn(12) == 0 {
 			for _, e := range entriesOf(before) {
 				if e.ID == held[0].ev.node.ID() {
 					swapRec, swapStage = Rec{ID: e.ID, Seq: e.Seq, IP: e.IP, Port: e.UDP, Node: e.Node}, 1
@@ -96,6 +109,12 @@ func RunSerial(rng *rand.Rand, nSteps int, obs Observer) (SerialStats, error) {
 			st.Pinged = ev.node.ID()
 			st.PingNode = ev.node
 			k := rng.Intn(100)
+			if opt.LongLived {
+				k = 0
+				if rng.Intn(400) == 0 {
+					k = 80
+				}
+			}
 			switch {
 			case k < 74:
 				st.Alive = true
@@ -145,6 +164,13 @@ func RunSerial(rng *rand.Rand, nSteps int, obs Observer) (SerialStats, error) {
 		} else {
 			afterAdvance = false
 			k := rng.Intn(100)
+			if opt.LongLived {
+				if n < 6 || rng.Intn(250) == 0 {
+					k = rng.Intn(42) // (re-)add the three nodes
+				} else {
+					k = 80 // advance
+				}
+			}
 			pick := func() Rec {
 				i := rng.Intn(len(pool.IDs))
 				if victimLeft > 0 && victim >= 0 && rng.Intn(2) == 0 {
